@@ -78,6 +78,7 @@ type tableEngine struct {
 	game                      Game
 	gameBackend               GameBackend
 	rg                        *syncsaga.ReadyGroup
+	rgMu                      sync.Mutex // guards rg: replaced on every arming, signalled by calls that take no engine lock
 	tbForOpenGame             *timebank.TimeBank
 	sm                        seat_manager.SeatManager
 	ogm                       open_game_manager.OpenGameManager
@@ -398,9 +399,11 @@ func (te *tableEngine) PlayerJoin(playerID string) error {
 	player.IsIn = true
 
 	// 有設定 ReadyGroup，且玩家尚未 Ready 時，則 Ready
+	te.rgMu.Lock()
 	if isReady, exist := te.rg.GetParticipantStates()[int64(playerIdx)]; exist && !isReady {
 		te.rg.Ready(int64(playerIdx))
 	}
+	te.rgMu.Unlock()
 
 	// 更新 seat manager
 	if err := te.sm.JoinPlayers([]string{playerID}); err != nil {
